@@ -3820,6 +3820,26 @@ pub mod verif {
         }
     }
 
+    impl<const N: usize> Subscriptions<N> {
+        /// Visit every subscription the table knows about without needing the request
+        /// buffers (end-to-end check of property C13): the subscriptions in the table
+        /// (`in_flight == false`) and the snapshot in the `reporting` slot (`true`).
+        pub fn verif_for_each_sub<F>(&self, mut f: F)
+        where
+            F: FnMut(&SubSnapshot, bool),
+        {
+            self.state.lock(|state| {
+                let state = state.borrow();
+                for sub in state.subscriptions.iter() {
+                    f(&sub.verif_snapshot(), false);
+                }
+                if let Some(sub) = state.reporting.as_ref() {
+                    f(&sub.verif_snapshot(), true);
+                }
+            })
+        }
+    }
+
     impl<'a, 's, B, const N: usize> ReportContext<'a, 's, B, N>
     where
         B: Buffers<IMBuffer> + 'a,
